@@ -21,21 +21,30 @@ func absPath(path string) string {
 
 // findProject creates new Project instance by finding a project which the given path belongs to.
 // A project must be a Git repository and have ".github/workflows" directory.
-func findProject(path string) (*Project, error) {
+// findProjectRoot returns the nearest ancestor directory of the path which is a root of a
+// repository. It returns an empty string when no such directory was found.
+func findProjectRoot(path string) string {
 	d := absPath(path)
 	for {
 		if s, err := os.Stat(filepath.Join(d, ".github", "workflows")); err == nil && s.IsDir() {
 			if _, err := os.Stat(filepath.Join(d, ".git")); err == nil { // Note: .git may be a file
-				return NewProject(d)
+				return d
 			}
 		}
 
 		p := filepath.Dir(d)
 		if p == d {
-			return nil, nil
+			return ""
 		}
 		d = p
 	}
+}
+
+func findProject(path string) (*Project, error) {
+	if d := findProjectRoot(path); d != "" {
+		return NewProject(d)
+	}
+	return nil, nil
 }
 
 // NewProject creates a new instance with a file path to the root directory of the repository.
@@ -63,7 +72,12 @@ func (p *Project) WorkflowsDir() string {
 // project's directory, the project knows the file.
 func (p *Project) Knows(path string) bool {
 	// TODO: strings.HasPrefix is not perfect to check file path
-	return strings.HasPrefix(absPath(path), p.root)
+	path = absPath(path)
+	if path == p.root {
+		return true
+	}
+	// Compare at boundary of path components. "/path/to/repo" does not know "/path/to/repo2/file"
+	return strings.HasPrefix(path, strings.TrimSuffix(p.root, string(filepath.Separator))+string(filepath.Separator))
 }
 
 // Config returns config object of the GitHub project repository. The config file was read from
@@ -88,19 +102,24 @@ func NewProjects() *Projects {
 // At returns the Project instance which the path belongs to. It returns nil if no project is found
 // from the path.
 func (ps *Projects) At(path string) (*Project, error) {
+	// Find the root of the nearest repository at first. A known project which contains the path is
+	// not always the answer since a repository may be put inside another repository.
+	root := findProjectRoot(path)
+	if root == "" {
+		return nil, nil
+	}
+
 	for _, p := range ps.known {
-		if p.Knows(path) {
+		if p.root == root {
 			return p, nil
 		}
 	}
 
-	p, err := findProject(path)
+	p, err := NewProject(root)
 	if err != nil {
 		return nil, err
 	}
-	if p != nil {
-		ps.known = append(ps.known, p)
-	}
+	ps.known = append(ps.known, p)
 
 	return p, nil
 }
